@@ -14,7 +14,7 @@ META = {
              'class); non-trivial when there are >= 2 flushes, a remainder chunk or an injected crash'),
     'required_obs': {'quick': ['flushes>=3', 'flush-at-exact-fit', 'remainder-chunk', 'crash-first', 'crash-middle', 'crash-last',
                                'prior-longer', 'prior-shorter', 'ocs-float', 'ocs-eq-record', 'ics-gt-rows', 'ics-1',
-                               'invalid-config-tried', 'reported-size-compared', 'contract-evals-write_bytes',
+                               'invalid-config-tried', 'reported-size-compared', 'window', 'contract-evals-write_bytes',
                                'contract-evals-buffer-invariant']},
     'assumptions': ['crash points are flush boundaries (what the statement speaks of); a kill inside one write(2) is out of scope',
                     'origins carry explicit file_set_number / creation_time'],
@@ -67,6 +67,8 @@ def run_case(case):
 
     r = gen.rng(seed, PROP, case['stratum'], case['index'])
 
+    window = {}
+
     def write(sp, ics, ocs, prior=None, crash_at=None, use_default=False):
         """returns (wout, final bytes or None, flush snapshots [(total, on-disk bytes)], reported size)"""
         b = S.build(sp)
@@ -84,6 +86,7 @@ def run_case(case):
         taps = harness.Taps(on_flush)
         spw = copy.deepcopy(sp)
         spw['write'] = {'input_chunk_size': ics, 'output_chunk_size': ocs, 'source': 'inline'}
+        spw['write'].update(window)
         with harness.capture_logs(logging.INFO) as logs:
             with taps:
                 if use_default:
@@ -128,6 +131,14 @@ def run_case(case):
     if case['kind'] in ('matrix', 'default'):
         sp, mx = make_spec(r)
         rows = [o for o in sp['ops'] if o['op'] == 'channel'][0]['data']['shape'][0]
+        full_rows = rows
+        if rows > 2 and r.random() < 0.5:
+            # a row window: the chunk sizes must stay invisible for the selected rows as well
+            a0 = r.randrange(0, rows - 1)
+            b0 = r.randrange(a0 + 1, rows + 1)
+            window.update({'from_idx': a0, 'to_idx': r.choice([b0, None])})
+            rows = (full_rows if window['to_idx'] is None else b0) - a0
+            bump('window')
         wout, ref, snaps, reported = write(sp, None, 2 ** 20)
         if ref is None or wout[0] != 'ok':
             bump('reference-raised:%s' % (wout[2][:50] if len(wout) > 2 else ''))
@@ -136,7 +147,7 @@ def run_case(case):
         if case['kind'] == 'default':
             cfgs = [(None, 'default', None)]
         else:
-            ics_all = gen.chunk_choices(rows) + [True]
+            ics_all = sorted(set(x for x in gen.chunk_choices(rows) + gen.chunk_choices(full_rows) if x is not None)) + [None, True]
             ocs_all = [mx, mx + 1, mx + 2, 2 * mx - 1, 2 * mx, float(2 * mx), size, size - 1, size + 1, 3 * mx + 7, 2 ** 20, 4096.0]
             ocs_all = [o for o in ocs_all if o >= mx]
             cfgs = []
